@@ -347,7 +347,14 @@ class Extractor:
 
     def block(self, stmts: Sequence[ast.stmt], fn: ast.AST) -> List[Item]:
         out: List[Item] = []
-        for st in stmts:
+        stmts = list(stmts)
+        for i, st in enumerate(stmts):
+            # guard clause in a loop body: `if c: ...; continue` followed by more statements - those run only when c is false
+            if isinstance(st, ast.If) and not st.orelse and st.body and isinstance(st.body[-1], ast.Continue) and i + 1 < len(stmts):
+                synth = ast.If(test=st.test, body=st.body, orelse=stmts[i + 1:])
+                ast.copy_location(synth, st)
+                out += self.stmt(synth, fn)
+                break
             out += self.stmt(st, fn)
             if isinstance(st, (ast.Return, ast.Raise)):
                 break
